@@ -33,6 +33,11 @@ def gen(ctx):
                     cases.append(("dup", idk, pre, n, base + [item(rng.choice(perm), marker="dup")]))
                     cases.append(("foreign", idk, pre, n, base + [rng.choice(["p%d:r31" % (n + rng.randrange(3)), "n18446744073709551615:r31",
                                                                                "n18446744073709551616:r31", "z:r31", "s%s:r31" % hx(b"x"), "s%s:r31" % hx(b"+1")])]))
+    # every sequence of n ids from the batch's own range (repeats and omissions together)
+    for n in range(1, ctx.scale(4, 5) + 1):
+        for seq in itertools.product(range(n), repeat=n):
+            tag = "perm" if sorted(seq) == list(range(n)) else "multiset"
+            cases.append((tag, rng.choice("ns"), rng.choice([0, 2]), n, [item(k, ok=rng.random() < 0.85) for k in seq]))
     for _ in range(ctx.scale(600, 12000)):
         n = rng.choice([1, 2, 3, 4, 6])
         items = []
